@@ -72,6 +72,7 @@ def create_synced_fault_table(w: World, translated_path: str):
         if c.method == "info_path" and c.side == synced and c.args[0] == translated_path and c.ok and c.result is not None and r == PUNT:
             check(sync[synced].oid == c.result.oid, "the object in the way becomes the entry's peer")
             check(sync[synced].path == w.providers[synced].normalize_path_separators(translated_path), "at the translated path")
+            check(sync[synced].hash == c.result.hash, "with the hash the provider reports for it (so that a content difference shows up as a conflict)")
     if len(notifications()) > 0:
         check(r == FINISHED and sync.is_irrelevant, "a bad name is reported only when the entry is frozen as irrelevant and finished")
 
@@ -148,6 +149,8 @@ def mkdir_synced_effects(w: World, translated_path: str):
               "the write makes the folder at the translated path on the other side")
     if len(calls("resolve_conflict")) > 0:
         check(len(ws) == 0 and r == PUNT, "a file in the way: no folder is made, the entry is punted")
+    if len(ws) == 1 and ws[0].ok:
+        check(r == FINISHED, "a folder that was made finishes the entry")
     if r == FINISHED:
         check(len(ws) == 1 and ws[0].ok, "finished only after the folder was made")
         check(sync[synced].sync_path == translated_path, "synced side: recorded at the translated path")
@@ -188,7 +191,16 @@ def conflict_rename_only_renames(w: World, path: str):
     nothing is at the path"""
     mgr = w.mgr
     side = w.changed
-    r = mgr.conflict_rename(side, path)
+    try:
+        r = mgr.conflict_rename(side, path)
+        bad_path = False
+    except ValueError:
+        bad_path = True
+    base = calls("split")[0].result[1]
+    check(bad_path == (base == ""), "a path without a last component is refused (ValueError) -- and only such a path")
+    if bad_path:
+        check(len(provider_calls()) == 0, "before anything is asked of the provider")
+    assume(not bad_path)
     pcs = provider_calls()
     ws = provider_writes()
     looked = False
@@ -425,3 +437,5 @@ def mkdir_synced_fault_table(w: World, translated_path: str):
     if len(calls("handle_file_name_error")) > 0:
         check(r == FINISHED, "a bad name finishes the entry")
     check(r is None or r == FINISHED or r == PUNT, "finished, punt, or nothing (retry)")
+    if r is None:
+        check(sync[synced]._last_gotten == 0, "'already exists': the other side is marked to be re-read before the retry")
